@@ -68,8 +68,16 @@ func init() {
 		n := atoi(a[7])
 		outs := make([]int, n)
 		pdfs := make([]string, n)
+		jumpAt, jumpBy := 0, time.Duration(0)
+		if len(a) > 8 { // <k>:<w> — from tick k on the clock reads w whole windows later
+			f := strings.SplitN(a[8], ":", 2)
+			jumpAt, jumpBy = atoi(f[0]), time.Duration(atoi64(f[1]))*rep
+		}
 		for k := 0; k < n; k++ {
 			t := start.Add(time.Duration(k) * freq)
+			if jumpBy != 0 && k >= jumpAt {
+				t = t.Add(jumpBy)
+			}
 			outs[k] = rateFn(t)
 			pdfs[k] = floatHex(dist.PDF(float64(t.Sub(t.Truncate(rep)))))
 		}
